@@ -209,7 +209,9 @@ func portIndexer(y any, p tree.Path) (string, error) {
 		if !ok {
 			protocol = "tcp"
 		}
-		return fmt.Sprintf("%s:%s:%d/%s", host, published, target, protocol), nil
+		// published and target may be written as a number or as a string: %v renders both spellings alike,
+		// so that the same port declared in two files is recognised whichever spelling each file uses
+		return fmt.Sprintf("%s:%v:%v/%s", host, published, target, protocol), nil
 	case string:
 		return value, nil
 	}
